@@ -156,7 +156,13 @@ ORDER_RULE = (" Order monitor: the Lean driver evaluates `checkOrder` (Store/Tra
               "before an fsync of its file (a directory fsync for creates / unlinks) was issued and that fsync completed; when the meta page is written nothing issued before may be volatile; nothing is "
               "issued between the meta write and the completion of its fsync; hash-table pages are written only after that and only if a redo log was written before; the redo log is truncated (by a sync "
               "or by recovery) only when every hash-table page written so far is durable; ln / bbn pages are not written after the switch-over; the operation does not return with the meta page volatile. "
-              "These are the order clauses (`hflushed`, the shape of `post`) of T4.1 / T4.2 / T3.2, decided on the real concurrent trace.")
+              "These are the order clauses (`hflushed`, the shape of `post`) of T4.1 / T4.2 / T3.2, decided on the real concurrent trace."
+              " Choreography membership (Store/SyncGen.lean, Props/C04_SyncGen.lean, Props/C03_SyncGen.lean): on the SAME `placement` / `recovery` lines the driver reads the parameters "
+              "(page lists, segment names, lengths, threads) off the recorded trace (`paramsOf` / `recParamsOf`) and decides with `member` / `firstDiff` whether the trace is a run of the "
+              "sync program / the trace of the recovery program instantiated with them: every line must be a step the program can take in its state, i.e. the real order respects EVERY "
+              "happens-before edge of the model (and issues no action the model lacks, and every modelled action); `member=1` / `rec_member=1` in the answer, a non-member is a `bad order: choreography` "
+              "(C04) / `bad member` (C03) line with the position and text of the first offending trace line. T4_sync_program_accepted / T3_recovery_program_accepted prove that EVERY run of "
+              "these programs, for every parameter choice, is accepted by the monitors; the evidence counts the traces checked and which optional parts occurred (img_mem_* / img_rec_* totals).")
 
 PROPS = {
     "C07": {
